@@ -217,12 +217,17 @@ func cmdVF(args []string) int {
 			}
 			if *dump != "" {
 				extra := rep.fx.finalizeAxioms()
+				var pick *Obligation
 				for _, o := range rep.Obls {
 					if strings.Contains(o.Name, *dump) {
-						fmt.Println(";;;;", o.Name, o.Path)
-						fmt.Println(rep.fx.buildQuery(o, extra))
-						break
+						if pick == nil || (pick.Result.Status == "unsat" && o.Result.Status != "unsat") {
+							pick = o
+						}
 					}
+				}
+				if pick != nil {
+					fmt.Println(";;;;", pick.Name, pick.Path, pick.Result.Status)
+					fmt.Println(rep.fx.buildQuery(pick, extra))
 				}
 			}
 		}
